@@ -93,6 +93,7 @@ fn main() {
     let probs: Vec<f64> = prof.get("probs").and_then(|x| x.as_array()).map(|a| a.iter().map(|x| x.as_f64().unwrap()).collect()).unwrap_or(vec![0.0, 0.3, 1.0, 1.5]);
     let saturate = prof.get("saturate").and_then(|x| x.as_bool()).unwrap_or(false); // momentum: deterministic regime only
     let mirror = prof.get("mirror").and_then(|x| x.as_bool()).unwrap_or(false); // each run twice: path and its reflection
+    let p_off = prof.get("p_off").and_then(|x| x.as_f64()).unwrap_or(0.15);
     let script_rate = prof.get("script_rate").and_then(|x| x.as_f64()).unwrap_or(0.5);
     let books: Vec<String> = prof.get("books").and_then(|x| x.as_array()).map(|a| a.iter().map(|x| x.as_str().unwrap().to_string()).collect())
         .unwrap_or(vec!["empty".into(), "bid_only".into(), "ask_only".into(), "two_sided".into()]);
@@ -130,6 +131,9 @@ fn main() {
                 "scripted": rng.gen::<f64>() < script_rate,
                 "script": (0..rng.gen_range(1..40)).map(|_| *pick(&mut rng, &[0u64, u64::MAX, 1u64 << 63, (1u64 << 40) - 1])).collect::<Vec<u64>>(),
                 "level": 2000 + 10 * rng.gen_range(0..50u32),
+                // trading disabled for the whole run and the book crossed (bids above asks): valid, nothing matches; the agents go on
+                // quoting around the mid-price of the crossed touch
+                "off": rng.gen::<f64>() < p_off,
             });
             // the mid-price path the harness imposes (in ticks around the level), for momentum runs
             path = (0..steps + 2).map(|_| rng.gen_range(-6..=6i64)).collect();
@@ -150,7 +154,8 @@ fn main() {
         let saturated = controlled && (saturate || mirror);
         let sign: i64 = if reflected { -1 } else { 1 };
 
-        let mut world = if multi { World::W2(MarketEnv::<2, 10>::new(0, [tick, tick], 1000, true)) } else { World::W1(Env::new(0, tick, 1000, true)) };
+        let off = c["off"].as_bool().unwrap_or(false);
+        let mut world = if multi { World::W2(MarketEnv::<2, 10>::new(0, [tick, tick], 1000, !off)) } else { World::W1(Env::new(0, tick, 1000, !off)) };
         let inner = R::seed_from_u64(c["agent_seed"].as_u64().unwrap());
         let script: Vec<u64> = if c["scripted"].as_bool().unwrap() && !mirror { c["script"].as_array().unwrap().iter().map(|x| x.as_u64().unwrap()).collect() } else { vec![] };
         let mut arng = Scripted::new(script, inner);
@@ -191,8 +196,14 @@ fn main() {
         let book = c["book"].as_str().unwrap();
         if !controlled {
             let base = level as u32;
-            if book == "bid_only" || book == "two_sided" { world.quote(asset, Side::Bid, 500, base - 3 * tick); world.quote(asset, Side::Bid, 300, base - 6 * tick); }
-            if book == "ask_only" || book == "two_sided" { world.quote(asset, Side::Ask, 400, base + 3 * tick); world.quote(asset, Side::Ask, 300, base + 7 * tick); }
+            if off {
+                // crossed: best bid above best ask
+                if book != "ask_only" { world.quote(asset, Side::Bid, 500, base + 3 * tick); world.quote(asset, Side::Bid, 300, base + tick); }
+                if book != "bid_only" { world.quote(asset, Side::Ask, 400, base - 3 * tick); world.quote(asset, Side::Ask, 300, base - 5 * tick); }
+            } else {
+                if book == "bid_only" || book == "two_sided" { world.quote(asset, Side::Bid, 500, base - 3 * tick); world.quote(asset, Side::Bid, 300, base - 6 * tick); }
+                if book == "ask_only" || book == "two_sided" { world.quote(asset, Side::Ask, 400, base + 3 * tick); world.quote(asset, Side::Ask, 300, base + 7 * tick); }
+            }
             world.step(&mut arng);
         }
 
@@ -206,8 +217,9 @@ fn main() {
                 }
                 let m = level + sign * path[k] * tick as i64;
                 let before = world.orders(asset).len();
-                world.quote(asset, Side::Bid, 1_000_000, (m - tick as i64) as u32);
-                world.quote(asset, Side::Ask, 1_000_000, (m + tick as i64) as u32);
+                let cross: i64 = if off { -1 } else { 1 }; // trading disabled: the quotes cross (bid above ask), same mid-price
+                world.quote(asset, Side::Bid, 1_000_000, (m - cross * tick as i64) as u32);
+                world.quote(asset, Side::Ask, 1_000_000, (m + cross * tick as i64) as u32);
                 quotes.push(before); quotes.push(before + 1);
                 world.step(&mut arng);
             }
@@ -267,6 +279,7 @@ fn main() {
             n_events += 1;
             *feats.entry("updates".into()).or_insert(0) += 1;
             if !ev["instrs"].as_array().unwrap().is_empty() { *feats.entry("updates_with_instructions".into()).or_insert(0) += 1; }
+            if off { *feats.entry("updates_on_crossed_book_trading_off".into()).or_insert(0) += 1; }
             if ev["instrs"].as_array().unwrap().iter().any(|x| x["k"] == "cancel") { *feats.entry("updates_with_cancels".into()).or_insert(0) += 1; }
             if sample.len() < 3 && ev["instrs"].as_array().unwrap().len() >= 2 { sample.push(ev.clone()); }
             world.step(&mut arng);
